@@ -10,6 +10,7 @@ from ..mir import deep_strip, tstr, strip_generics, is_call
 from .. import witness
 
 CONFIGS = ("FULL", "XEN")
+THOROUGH_CONFIGS = ("MIN",)
 INTR = re.compile(r"^core::num::<impl (u8|u16|u32|u64|u128|usize)>::(\w+)$")
 
 TRUSTED = [
